@@ -7,7 +7,7 @@ props=$(/venv/bin/python -c "import json; print(' '.join(c['property_id'] for c 
 for seed in $(seq $first $last); do
   for p in $props; do
     r=$(VERIF_SEED=$seed VERIF_OUT=$out /venv/bin/python -m simkit.run $p --tier $tier 2>&1); code=$?
-    if [ $code -ne 0 ]; then echo "SOAK-ALARM seed=$seed $p exit=$code"; echo "$r" | tail -12; cp -r $out/replays /tmp/soak_replays_$seed_$p 2>/dev/null; fi
+    if [ $code -ne 0 ]; then echo "SOAK-ALARM seed=$seed $p exit=$code"; echo "$r" | tail -12; cp -r $out/replays /tmp/soak_replays_${seed}_$p 2>/dev/null; fi
   done
   echo "seed $seed done $(date +%T)"
 done
